@@ -717,6 +717,8 @@ func nearStrings(present []string, max int, extra ...string) []string {
 			out = append(out, p[:len(p)-1])
 		}
 		out = append(out, p+"1", p+"0")
+		// the same value with a blank after / before it is another value
+		out = append(out, p+" ", " "+p)
 	}
 	return append(out, extra...)
 }
